@@ -430,6 +430,7 @@ type FuncContract struct {
 
 type AssertClause struct {
 	Anchor string
+	After  bool // evaluated after the last instruction of the anchored source line (default: before its first)
 	Clause *Clause
 }
 
@@ -484,7 +485,7 @@ func NewContractSet() *ContractSet {
 
 var (
 	tagRe     = regexp.MustCompile(`^(\w[\w-]*)(\[[A-Za-z0-9_, ]+\])?\s*(.*)$`)
-	assertRe  = regexp.MustCompile(`^in\s+(\S+)\s+at\s+"(.*?)"\s*:\s*(.*)$`)
+	assertRe  = regexp.MustCompile(`^in\s+(\S+)\s+(at|after)\s+"(.*?)"\s*:\s*(.*)$`)
 	keywords  = map[string]bool{"effect": true, "assert": true, "ghost": true, "functype": true, "func": true, "loop": true, "pure": true, "lemma": true, "requires": true, "ensures": true, "modifies": true, "reads": true, "invariant": true, "decreases": true, "let": true, "iface": true, "assume-contract": true, "axiom": true}
 	pureRe    = regexp.MustCompile(`^(\w+)\s*\((.*?)\)\s*([^=]*?)\s*(?:=\s*(.*))?$`)
 	loopRe    = regexp.MustCompile(`^(\d+)\s+in\s+(\S+)(?:\s+at\s+"(.*)")?\s*$`)
@@ -648,11 +649,11 @@ func (cs *ContractSet) LoadFile(path, pkgPath string, trusted bool) error {
 				fc = &FuncContract{Pkg: pkgPath, Name: m[1], Opts: map[string]string{"inline-only": "true"}, Loops: map[int]*LoopContract{}, File: path, Line: r.line}
 				cs.Funcs[key] = fc
 			}
-			e, err := ParseSpecExpr(m[3])
+			e, err := ParseSpecExpr(m[4])
 			if err != nil {
 				return fmt.Errorf("%s:%d: %v", path, r.line, err)
 			}
-			fc.Asserts = append(fc.Asserts, &AssertClause{Anchor: m[2], Clause: &Clause{Kind: "assert", Tags: splitTags(r.tags), Text: m[3], Expr: e, File: path, Line: r.line}})
+			fc.Asserts = append(fc.Asserts, &AssertClause{Anchor: m[3], After: m[2] == "after", Clause: &Clause{Kind: "assert", Tags: splitTags(r.tags), Text: m[4], Expr: e, File: path, Line: r.line}})
 			curF, curL = nil, nil
 		case "pure", "axiom":
 			m := pureRe.FindStringSubmatch(r.text)
